@@ -206,6 +206,95 @@ fn audit_positions(rep: &mut Report, c: &Compiled, rng: &mut Rng) -> Result<(), 
     Ok(())
 }
 
+
+/// Positions directly in the root container (container path = the empty path): before the first continue, in a brand
+/// new flow, and after a host jump to a root-level index. Written into a save and read back they must denote the
+/// same position.
+fn audit_root_positions(rep: &mut Report, c: &Compiled) -> Result<(), String> {
+    let host = HostCfg { handler: true, fallbacks: true, fuel: Some(20_000), seed: Some(1), bind: c.info.externals.keys().map(|k| (k.clone(), true)).collect(), observe: vec![] };
+    let wit = |what: &str, detail: Value| json!({"story": c.name, "what": what, "detail": detail, "source": c.src.as_ref().map(|s| truncate(s, 2000)), "json": truncate(&c.json, 1500)});
+    let top_pointer = |save: &str| -> Option<(String, i64)> {
+        let sv: Value = serde_json::from_str(save).ok()?;
+        let flow_name = sv["currentFlowName"].as_str().unwrap_or("DEFAULT_FLOW").to_string();
+        let el = sv["flows"][&flow_name]["callstack"]["threads"].as_array()?.last()?["callstack"].as_array()?.last()?.clone();
+        Some((el["cPath"].as_str()?.to_string(), el["idx"].as_i64()?))
+    };
+    // the situations: (label, preparation)
+    let root_len = {
+        let st = Story::new(&c.json).map_err(|e| e.to_string())?;
+        let a = st.verif_audit();
+        a.entries.iter().filter(|e| e.parent == Some(0) && !e.named_only).count()
+    };
+    let mut situations: Vec<(String, Vec<Op>)> = vec![("fresh".into(), vec![]), ("new-flow".into(), vec![Op::Cont, Op::SwitchFlow("aside".into())])];
+    for k in 0..root_len.min(6) {
+        situations.push((format!("jump-to-root-index-{k}"), vec![Op::ChoosePath(k.to_string(), true)]));
+    }
+    for (label, prep) in situations {
+        let mut p = Player::new(c.json.clone(), c.info.clone(), host.clone())?;
+        let mut ok = true;
+        for op in prep.iter() {
+            if matches!(op, Op::Cont) && !p.story.can_continue() {
+                continue;
+            }
+            if p.apply(op).res.is_err() {
+                ok = false;
+            }
+        }
+        if !ok || p.story.has_error() {
+            rep.count("root-position-situations-not-reachable");
+            continue;
+        }
+        rep.case(Some(fnv(&format!("{}|root-pos|{label}", c.name))));
+        rep.count(&format!("root-position:{}", label.split("-index-").next().unwrap_or(&label)));
+        let cur = p.story.get_current_path();
+        let can = p.story.can_continue();
+        let Ok(save) = p.story.save_state() else { continue };
+        if let (Some(cur), Some((cp, idx))) = (&cur, top_pointer(&save)) {
+            let expected = if cp.is_empty() { idx.to_string() } else { format!("{cp}.{idx}") };
+            if *cur != expected {
+                rep.violation("position/current-path-differs-from-saved-pointer", wit("get_current_path() and the (cPath, idx) written into the save denote different positions", json!({"situation": label, "get_current_path": cur, "save_cPath_idx": expected})));
+                continue;
+            }
+            if let Some(k) = label.strip_prefix("jump-to-root-index-")
+                && *cur != k
+            {
+                rep.violation("position/jump-to-root-index-lands-elsewhere", wit("after choose_path_string(N) the current path is not N", json!({"situation": label, "get_current_path": cur})));
+                continue;
+            }
+        }
+        // read back in a fresh story: same position, same ability to continue, same next line, same save
+        let mut q = Player::new(c.json.clone(), c.info.clone(), host.clone())?;
+        if let Err(e) = q.story.load_state(&save) {
+            rep.violation("position/save-of-root-position-does-not-load", wit("a save taken at a root-level position is rejected", json!({"situation": label, "error": e.to_string()})));
+            continue;
+        }
+        let (cur2, can2) = (q.story.get_current_path(), q.story.can_continue());
+        if cur2 != cur || can2 != can {
+            rep.violation("position/root-position-lost-by-save-load", wit("position or can_continue differ after save + load", json!({"situation": label, "before": {"path": cur, "can_continue": can}, "after": {"path": cur2, "can_continue": can2}})));
+            continue;
+        }
+        let (s1, s2) = (p.canonical_save().ok(), q.canonical_save().ok());
+        if s1 != s2 {
+            rep.violation("position/root-position-resave-differs", wit("the save of the loaded story differs from the save it was loaded from", json!({"situation": label})));
+            continue;
+        }
+        if can {
+            let (a, b) = (p.apply(&Op::Cont), q.apply(&Op::Cont));
+            if a.res != b.res || a.snap != b.snap {
+                rep.violation("position/root-position-continues-differently-after-load", wit("the next line differs after save + load", json!({"situation": label, "original": a.to_json(), "loaded": b.to_json()})));
+            }
+        }
+    }
+    Ok(())
+}
+
+/// stories with text, commands and containers directly in the root container (legal runtime JSON that the compiler
+/// does not happen to write)
+pub const ROOT_CONTENT: &[&str] = &[
+    r#"{"inkVersion":21,"root":["^line one","\n","^line two","\n",["^in a container","\n",null],"^after","\n","done",null],"listDefs":{}}"#,
+    r#"{"inkVersion":21,"root":["^first","\n",["ev","str","^go on","/str","/ev",{"*":"2.c-0","flg":20},{"c-0":["^chosen","\n",{"->":"3"},null]}],"^back in the root","\n","^second root line","\n","end",{"k":["^knot","\n","done",null]}],"listDefs":{}}"#,
+];
+
 pub const TINY: &[&str] = crate::props::c18::TINY;
 
 pub fn run(cfg: &Cfg) -> i32 {
@@ -227,6 +316,11 @@ pub fn run(cfg: &Cfg) -> i32 {
         }
     } else {
         stories = corpus_stories(&cfg.corpus_dir(), true, true, if cfg.quick() { 4000 } else { 1_000_000 });
+        for (k, j) in ROOT_CONTENT.iter().enumerate() {
+            if let Some(c) = from_json(&format!("root-content-{k}"), j.to_string(), None) {
+                stories.insert(0, c);
+            }
+        }
         let gc = GenCfg::rich();
         for i in 0..cfg.get_u64("programs", cfg.pick(60, 2500)) {
             if let GenOutcome::Ok(c) = generated(cfg.seed, "C19", i, &gc) {
@@ -244,7 +338,8 @@ pub fn run(cfg: &Cfg) -> i32 {
         let r = std::panic::catch_unwind(std::panic::AssertUnwindSafe(|| {
             let a = audit_story(&mut rep, c, &mut rng, pairs);
             let b = if tiny_only { Ok(()) } else { audit_positions(&mut rep, c, &mut rng) };
-            a.and(b)
+            let r = if tiny_only { Ok(()) } else { audit_root_positions(&mut rep, c) };
+            a.and(b).and(r)
         }));
         match r {
             Err(_) => {
